@@ -221,6 +221,36 @@ def catalogue(rng, W, tier):
                 s.cmd("TICK 11")
             f = netsim.kv(line); res.append("state=%s err=%s sig=%s" % (f.get("state"), f.get("err"), f.get("sig")))
         return "|".join(res)
+    def async_http_op(s):
+        """the asynchronous service over the HTTP client (scripted curl multi): add, run (exchange handed to curl), reply as the exchange's body, run"""
+        s.cmd("NEW 2 10 10 10 10 - http")
+        out = s.cmd("ADD 1 %s 0" % d2.hex()); res = [norm(out)]
+        live = []
+        def run():
+            o = s.cmd("RUN")
+            for l in o:
+                if l.startswith("E madd"):
+                    live.append((int(re.search(r"x=(\d+)", l).group(1)), bytes.fromhex(l.split("post=")[1].split()[0])))
+            return o
+        if " rc=0x0 " in out[-1] + " ":
+            run()
+            for x, raw in list(live):
+                try:
+                    s.cmd("MHTTP %d 200 %s %d" % (x, signer(raw).hex(), 7)); live.remove((x, raw))
+                except Exception:
+                    pass
+            line = ""
+            for _ in range(4):
+                out = run(); line = [l for l in out if l.startswith("R run")][-1]
+                if " h=1 " in line + " ":
+                    break
+                s.cmd("TICK 11")
+            f = netsim.kv(line); res.append("state=%s err=%s sig=%s" % (f.get("state"), f.get("err"), f.get("sig")))
+        for x, raw in live:               # an exchange still in flight when the service goes away is not released by the client: let it end first
+            s.cmd("MHTTPERR %d 7" % x)
+        if live: run()
+        return "|".join(res)
+    ops.append(Op("async-http-sign", "drv_net", async_http_op, None, "net_async/net_http_curl_async"))
     ops.append(Op("async-sign", "drv_net", lambda s: async_op(s, False), None, "net_async/net_tcp_async"))
     ops.append(Op("ha-sign", "drv_net", lambda s: async_op(s, True), None, "net_ha"))
     def obj_ops(s):
